@@ -2233,7 +2233,17 @@ static int _GD_ParseDirective(DIRFILE *D, struct parser_state *restrict p,
         (strcmp(in_cols[1], "SBIT") == 0) ||
         (strcmp(in_cols[1], "POLYNOM") == 0) ||
         (strcmp(in_cols[1], "STRING") == 0) ||
-        (strcmp(in_cols[1], "CONST") == 0))
+        (strcmp(in_cols[1], "CONST") == 0) ||
+        /* the field types of Standards Version 8 and later, where a reserved
+         * word without a slash is an ordinary field name */
+        (strcmp(in_cols[1], "CARRAY") == 0) ||
+        (strcmp(in_cols[1], "DIVIDE") == 0) ||
+        (strcmp(in_cols[1], "RECIP") == 0) ||
+        (strcmp(in_cols[1], "MPLEX") == 0) ||
+        (strcmp(in_cols[1], "WINDOW") == 0) ||
+        (strcmp(in_cols[1], "INDIR") == 0) ||
+        (strcmp(in_cols[1], "SARRAY") == 0) ||
+        (strcmp(in_cols[1], "SINDIR") == 0))
     {
       dreturn("%i", 0);
       return 0;
